@@ -74,7 +74,21 @@ func (fr *frame) loopTouched(li *loopInfo) (names map[string]bool, all bool) {
 			// dynamic call: union over candidates
 			cands := fc.e.dynCandidates(c.Value.Type())
 			if len(cands) == 0 {
-				all = true
+				handled := false
+				for _, ft := range fc.e.specs.FuncTypes {
+					t, _, err := fc.e.resolveType(ft.Type, ft.Pkg)
+					if err == nil && t != nil && types.Identical(t, c.Value.Type()) {
+						for k := 0; k+1 < len(ft.Preserves); k++ {
+							if ft.Preserves[k] == "package" {
+								names["*outside:"+ft.Preserves[k+1]] = true
+								handled = true
+							}
+						}
+					}
+				}
+				if !handled {
+					all = true
+				}
 			}
 			for _, f := range cands {
 				if ct := fc.e.specs.Funcs[fnKey(f)]; ct != nil {
@@ -175,6 +189,9 @@ func isTrivial(f *ssa.Function) bool {
 
 func (fr *frame) contractTouches(ct *FuncContract, names map[string]bool, all *bool) {
 	fc := fr.fc
+	if po := ct.Opts["modifies-outside"]; po != "" {
+		names["*outside:"+po] = true
+	}
 	if ct.Opts["modifies-everything"] != "" {
 		*all = true
 		return
@@ -260,8 +277,25 @@ func (fr *frame) loopHeader(li *loopInfo, b *ssa.BasicBlock, st *State) *State {
 		}
 	}
 	sort.Strings(keys)
+	var outsidePkgs []string
+	for k := range touched {
+		if strings.HasPrefix(k, "*outside:") {
+			outsidePkgs = append(outsidePkgs, strings.TrimPrefix(k, "*outside:"))
+		}
+	}
+	if len(outsidePkgs) > 0 && !all {
+		// arrays first used after the loop must not be taken for their entry versions
+		fc.nfresh++
+		st.epoch = fc.nfresh
+	}
 	for _, k := range keys {
-		if !all && !touched[k] {
+		outside := false
+		for _, po := range outsidePkgs {
+			if !fc.ownedBy(k, po) {
+				outside = true
+			}
+		}
+		if !all && !touched[k] && !outside {
 			continue
 		}
 		old := st.heap[k]
